@@ -5,7 +5,7 @@ from nslgen import *
 from translate import t_vm
 from common import TranslatorAbort
 
-STATIC = ["Model/Swizzle.v", "Proofs/VecProofs.v", "Proofs/CallProofs.v", "Proofs/OpsAgree.v", "Spec/RefSem.v"]
+STATIC = ["Model/Swizzle.v", "Proofs/VecProofs.v", "Proofs/VecSetProofs.v", "Proofs/CallProofs.v", "Proofs/OpsAgree.v", "Spec/RefSem.v"]
 
 
 def targeted(rng):
